@@ -79,6 +79,9 @@ func C20(p *an.Prog, r *an.Report) {
 	r.Trusted = []string{"go/ssa; external calls return unknown (never reported) values"}
 	r.Exhaustive = true
 	defer c20Prealloc(p, r)
+	// Z5: methods never index or slice out of range whatever the receiver holds (bounds proof of C04
+	// restricted to methods of library types): covers partially filled values with non-zero length fields
+	defer boundsFor(p, r, "C20.Z5", 50, func(f *ssa.Function) bool { return f.Signature.Recv() != nil })
 
 	type tm struct {
 		T     *types.Named
